@@ -28,7 +28,7 @@ from common import cnat, clist, cstr
 
 LEVEL = "proof"
 THEOREMS = "Props/C08.v"
-EXTRA_TARGETS = ("Gen/SchedSasa.vo", "Gen/SchedKernels.vo")
+EXTRA_TARGETS = ("Gen/SchedSasa.vo", "Gen/SchedKernels.vo", "Gen/SchedPyx.vo")
 EXTS = ["_geometry", "_rmsd", "drid", "neighbors", "neighborlist"]
 RULE = ("(environment, trajectory, analysis) triples: environment = OMP_NUM_THREADS in {1,2,3,5,8,16,frames+3} x OMP_SCHEDULE in "
         "{static,dynamic,guided} x OMP_DYNAMIC in {unset,true}, one process each; trajectory = frames of tests/data/2EQQ.pdb or "
@@ -37,6 +37,10 @@ RULE = ("(environment, trajectory, analysis) triples: environment = OMP_NUM_THRE
         "equality; non-trivial = trajectory has >= 2 frames and more frames than one thread's share for some thread "
         "(threads < frames) or a permutation that moves the frame; distinct by hash of the triple")
 TRUSTED = ["harness/props/C08_scan.py (C/C++ frame-loop scanner: flattening, callee effect table, per-frame parameter names)",
+           "harness/props/C08_pyx.py (cython frame-loop scanner: indentation blocks, one term per control-flow path, conditions "
+           "that read neither the loop variable nor anything the loop assigns are the same in every iteration, callee effect "
+           "table PYX_CALLEE_EFFECTS; extraction of the OpenMP clauses of the pre-generated C++ and their matching with the "
+           "prange loops by textual order)",
            "harness/impl/sched_impl.py (calls mdtraj's public API on fresh copies, hashes raw result bytes per frame)",
            "harness/props/C08.py (environment sweep, comparison of hashes, the regex translator of sasa.cpp's loop skeleton "
            "and of the variables written inside omp parallel regions)",
@@ -311,6 +315,197 @@ def gen_kernels_text(scanned, statics=()):
     return "\n".join(lines) + "\n"
 
 
+
+# ------------------------------------------------------------------------------------------ cython loops and OpenMP clauses
+RMSD_PYX = "mdtraj/rmsd/_rmsd.pyx"
+# (term name, .pyx, function, first range argument(s), textual occurrence inside the function, expected kind)
+PYX_KERNELS = [
+    ("rmsd_prange", RMSD_PYX, "rmsd", ("target_n_frames",), 0, "prange"),
+    ("rmsd_serial", RMSD_PYX, "rmsd", ("target_n_frames",), 1, "range"),
+    ("rmsf_superpose_prange", RMSD_PYX, "rmsf", ("target_n_frames",), 0, "prange"),
+    ("rmsf_superpose_serial", RMSD_PYX, "rmsf", ("target_n_frames",), 1, "range"),
+    ("multi_rmsd_axis_major_prange", RMSD_PYX, "getMultipleRMSDs_axis_major", ("n_frames",), 0, "prange"),
+    ("multi_rmsd_axis_major_serial", RMSD_PYX, "getMultipleRMSDs_axis_major", ("n_frames",), 1, "range"),
+    ("multi_rmsd_atom_major_prange", RMSD_PYX, "getMultipleRMSDs_atom_major", ("n_frames",), 0, "prange"),
+    ("multi_rmsd_atom_major_serial", RMSD_PYX, "getMultipleRMSDs_atom_major", ("n_frames",), 1, "range"),
+    ("superpose_prange", RMSD_PYX, "superpose_atom_major", ("n_frames",), 0, "prange"),
+    ("superpose_serial", RMSD_PYX, "superpose_atom_major", ("n_frames",), 1, "range"),
+    ("align_displace_rmsd_prange", RMSD_PYX, "getMultipleAlignDisplaceRMSDs_atom_major", ("n_frames",), 0, "prange"),
+    ("align_displace_rmsd_serial", RMSD_PYX, "getMultipleAlignDisplaceRMSDs_atom_major", ("n_frames",), 1, "range"),
+    ("drid_frames", "mdtraj/geometry/drid.pyx", "_drid", ("n_frames",), 0, "range"),
+    ("drid_atoms_prange", "mdtraj/geometry/drid.pyx", "_drid", ("n_atom_indices",), 0, "prange"),
+    ("compute_neighbors_frames", "mdtraj/geometry/neighbors.pyx", "compute_neighbors", ("n_frames",), 0, "range"),
+]
+# .pyx -> the C++ cython generated from it (the file that is compiled; git-ignored, next to the source)
+PYX_GENERATED = {RMSD_PYX: "mdtraj/rmsd/_rmsd.cpp", "mdtraj/geometry/drid.pyx": "mdtraj/geometry/drid.cpp",
+                 "mdtraj/geometry/neighbors.pyx": "mdtraj/geometry/neighbors.cpp",
+                 "mdtraj/geometry/neighborlist.pyx": "mdtraj/geometry/neighborlist.cpp",
+                 "mdtraj/geometry/src/_geometry.pyx": "mdtraj/geometry/src/_geometry.cpp",
+                 "mdtraj/rmsd/_lprmsd.pyx": "mdtraj/rmsd/_lprmsd.cpp"}
+# hand-written OpenMP loops: (term name, file, function, loop bound, preprocessor defines)
+OMP_CPP_LOOPS = [
+    ("sasa_frames_omp", "mdtraj/geometry/src/sasa.cpp", "sasa", ("n_frames",), ("_OPENMP",)),
+    ("center_frames_omp", "mdtraj/rmsd/src/center_sse.h", "inplace_center_and_trace_atom_major", ("n_frames",), ("_OPENMP",)),
+]
+OMP_CPP_FILES = ["mdtraj/geometry/src/sasa.cpp", "mdtraj/geometry/src/neighborlist.cpp", "mdtraj/rmsd/src/center_sse.h"]
+
+
+def all_pranges(src):
+    """Every `for v in prange(...)` of a .pyx in textual order: (line, loop variable, scalars assigned in the body,
+    scalars updated with an in-place operator = what cython turns into an OpenMP reduction)."""
+    from props import C08_pyx as P
+    code = P.strip_py_comments(src)
+    lines = code.splitlines()
+    out = []
+    for k, line in enumerate(lines):
+        m = P.FOR_RE.match(line.strip())
+        if not m or m.group(2) != "prange":
+            continue
+        ind = len(line) - len(line.lstrip(" "))
+        j = k + 1
+        while j < len(lines) and (not lines[j].strip() or len(lines[j]) - len(lines[j].lstrip(" ")) > ind):
+            j += 1
+        ll = P.logical_lines("\n".join(lines[k + 1:j]))
+        body, _n = P.parse_tree(ll, 0, ll[0][0])
+        assigned, reductions = set(), set()
+        for path in P.paths(body):
+            for it in path:
+                if it[0] == "forhead":
+                    assigned.add(it[1])
+                elif it[0] == "stmt":
+                    am = P.AUG_RE.match(it[1])
+                    a = P.top_level_assign(it[1]) if not am else None
+                    if am and re.match(r"^[A-Za-z_]\w*$", am.group(1).strip()):
+                        reductions.add(am.group(1).strip())
+                    elif a and re.match(r"^[A-Za-z_]\w*$", a[0]):
+                        assigned.add(a[0])
+        out.append((k + 1, m.group(1), sorted(assigned), sorted(reductions)))
+    return out
+
+
+def scan_pyx(repo=None):
+    """Terms of the cython per-frame loops + the cross-check of each .pyx against its generated C++.
+    Returns (terms [(name, rel, function, kind, Term)], clauses [(where, lastprivate, reduction, schedule)], problems dict)."""
+    from props import C08_pyx as P, C08_scan
+    repo = repo or common.REPO
+    terms = []
+    kind_mismatch = []
+    for name, rel, fn, bound, occ, want in PYX_KERNELS:
+        with open(os.path.join(repo, rel)) as fh:
+            src = fh.read()
+        try:
+            _v, kind, paths_, _assigned = P.scan_pyx_loop(src, fn, bound, occ)
+        except C08_scan.ScanError as e:
+            raise C08_scan.ScanError("%s (%s:%s): %s" % (name, rel, fn, e))
+        if kind != want:
+            kind_mismatch.append("%s:%s is a %s loop (recorded: %s)" % (os.path.basename(rel), name, kind, want))
+        for k, T in enumerate(paths_):
+            terms.append((name if len(paths_) == 1 else "%s_path%d" % (name, k), rel, fn, kind, T))
+    clauses, reductions, unprivatised, count_mismatch = [], [], [], []
+    for rel, gen in sorted(PYX_GENERATED.items()):
+        with open(os.path.join(repo, rel)) as fh:
+            pr = all_pranges(fh.read())
+        gpath = os.path.join(repo, gen)
+        if not os.path.exists(gpath):
+            raise C08_scan.ScanError("generated file %s is missing" % gen)
+        with open(gpath, errors="replace") as fh:
+            pc = [d for d in P.pragma_clauses(fh.read()) if d["kind"] == "for"]
+        if len(pr) != len(pc):
+            count_mismatch.append("%s: %d prange loops, %s: %d omp for" % (os.path.basename(rel), len(pr), os.path.basename(gen), len(pc)))
+            continue
+        for (line, var, assigned, red), d in zip(pr, pc):
+            where = "%s:%d" % (os.path.basename(rel), line)
+            last = sorted(v.replace("__pyx_v_", "") for v in d["lastprivate"])
+            clauses.append((where, last, d["reduction"], d["schedule"] or ""))
+            for r in red:
+                reductions.append("%s:%s (in-place operator in the prange body)" % (where, r))
+            for r in d["reduction"]:
+                reductions.append("%s:%s (reduction clause in %s:%d)" % (where, r, os.path.basename(gen), d["line"]))
+            for v in sorted(set(assigned + [var]) - set(last)):
+                unprivatised.append("%s:%s" % (where, v))
+    return terms, clauses, {"reductions": reductions, "unprivatised": unprivatised, "count_mismatch": count_mismatch,
+                            "kind_mismatch": kind_mismatch}
+
+
+def scan_omp_cpp(repo=None):
+    """The hand-written OpenMP loops: terms + (file:line, private list, reduction, schedule) of every omp pragma, and the
+    variables a loop body writes that are declared outside the parallel region without being private."""
+    from props import C08_pyx as P, C08_scan
+    repo = repo or common.REPO
+    terms, clauses, unpriv, reductions = [], [], [], []
+    pragmas = {}
+    for rel in OMP_CPP_FILES:
+        with open(os.path.join(repo, rel)) as fh:
+            code = C08_scan.preprocess(C08_scan.strip_comments(fh.read()), ("_OPENMP",))
+        pragmas[rel] = P.pragma_clauses(code)
+        for d in pragmas[rel]:
+            where = "%s:%s" % (os.path.basename(rel), "parallel for" if d["combined"] else d["kind"])
+            clauses.append((where, sorted(d["private"] + d["firstprivate"] + d["lastprivate"]), d["reduction"], d["schedule"] or ""))
+            for r in d["reduction"]:
+                reductions.append("%s:%s" % (where, r))
+    for name, rel, fn, bound, defs in OMP_CPP_LOOPS:
+        with open(os.path.join(repo, rel)) as fh:
+            src = fh.read()
+        try:
+            T = C08_scan.scan_loop(src, fn, bound=bound, defines=defs)
+        except C08_scan.ScanError as e:
+            raise C08_scan.ScanError("%s (%s:%s): %s" % (name, rel, fn, e))
+        terms.append((name, rel, fn, "omp", T))
+        private = set()
+        for d in pragmas[rel]:
+            private |= set(d["private"] + d["firstprivate"] + d["lastprivate"])
+        for v in T.shared:
+            if v not in private and v != getattr(T, "loopvar", None):
+                unpriv.append("%s:%s" % (os.path.basename(rel), v))
+    return terms, clauses, {"unprivatised": unpriv, "reductions": reductions}
+
+
+def gen_pyx_text(pyx, omp):
+    pterms, pclauses, pprob = pyx
+    oterms, oclauses, oprob = omp
+    L = ["(* GENERATED on every run by harness/props/C08.py + C08_pyx.py + C08_scan.py.",
+         "   (1) one term of MD.Sched.FrameLoop per control-flow path of every per-frame loop of mdtraj's cython sources",
+         "       (_rmsd.pyx, drid.pyx, neighbors.pyx): `for i in prange(n_frames)` and its serial twin `for i in range(n_frames)`;",
+         "   (2) the hand-written OpenMP frame loops (sasa.cpp:sasa, center_sse.h);",
+         "   (3) the OpenMP clauses of the C++ that cython generated (the compiled file) matched, in textual order, against the",
+         "       prange loops of the .pyx, and the clauses of the hand-written pragmas.",
+         "   Per-run obligations: every term is disciplined; every PARALLEL term is also cursor-free (par_ok), so that",
+         "   MD.Sched.FrameLoopPar.par_loop_schedule_free applies; no reduction clause / in-place scalar update in a prange body;",
+         "   every scalar a prange body assigns is lastprivate in the generated pragma; every variable an omp loop body writes",
+         "   and that is declared outside the region is in a private clause. *)",
+         "From Coq Require Import String.", "From Coq Require Import List ZArith Bool.", "Import ListNotations.",
+         "Require Import MD.Sched.FrameLoop.", "Open Scope Z_scope.", ""]
+    names, par = [], []
+    for name, rel, fn, kind, T in pterms + oterms:
+        L.append("(* %s : %s loop of %s in %s" % (name, kind, fn, rel))
+        L.append("   %s *)" % T.legend().replace("*)", "* )").replace("(*", "( *"))
+        L.append("Definition %s : fprog :=\n  %s." % (name, T.coq()))
+        L.append("")
+        names.append(name)
+        if kind in ("prange", "omp"):
+            par.append(name)
+    L.append("Definition pyx_loops : list (string * fprog) :=\n  [%s]." % ";\n   ".join('("%s"%%string, %s)' % (n, n) for n in names))
+    L.append("Definition parallel_loops : list (string * fprog) :=\n  [%s]." % ";\n   ".join('("%s"%%string, %s)' % (n, n) for n in par))
+    fmt = lambda cl: clist(["(%s, (%s, (%s, %s)))" % (cstr(w), clist([cstr(x) for x in a]), clist([cstr(x) for x in r]), cstr(sc))
+                            for w, a, r, sc in cl])
+    L.append("(* (prange at file:line, (lastprivate variables of the generated omp for, (reduction clauses, schedule clause))) *)")
+    L.append("Definition prange_clauses : list (string * (list string * (list string * string))) :=\n  %s." % fmt(pclauses))
+    L.append("(* (hand-written pragma, (private variables, (reduction clauses, schedule clause))) *)")
+    L.append("Definition omp_clauses : list (string * (list string * (list string * string))) :=\n  %s." % fmt(oclauses))
+    L.append("Definition prange_reductions : list string := %s." % clist([cstr(x) for x in pprob["reductions"] + oprob["reductions"]]))
+    L.append("Definition prange_unprivatised : list string := %s." % clist([cstr(x) for x in pprob["unprivatised"]]))
+    L.append("Definition prange_generated_mismatch : list string := %s." % clist([cstr(x) for x in pprob["count_mismatch"] + pprob["kind_mismatch"]]))
+    L.append("Definition omp_unprivatised : list string := %s." % clist([cstr(x) for x in oprob["unprivatised"]]))
+    L.append("")
+    L.append("Lemma pyx_loops_disciplined : forallb (fun k => fdisc (snd k)) pyx_loops = true.\nProof. vm_compute. reflexivity. Qed.")
+    L.append("Lemma parallel_loops_par_ok : forallb (fun k => par_ok (snd k)) parallel_loops = true.\nProof. vm_compute. reflexivity. Qed.")
+    L.append("Lemma no_reductions : prange_reductions = [].\nProof. reflexivity. Qed.")
+    L.append("Lemma prange_scalars_private : prange_unprivatised = [].\nProof. reflexivity. Qed.")
+    L.append("Lemma prange_generated_in_step : prange_generated_mismatch = [].\nProof. reflexivity. Qed.")
+    L.append("Lemma omp_written_variables_private : omp_unprivatised = [].\nProof. reflexivity. Qed.")
+    return "\n".join(L) + "\n"
+
+
 _STATIC = {}
 LINTED = ("mdtraj/geometry/src/sasa.cpp", "mdtraj/geometry/src/neighborlist.cpp", "mdtraj/rmsd/src/center_sse.h")
 
@@ -342,6 +537,19 @@ def translate(ctx):
         ctx.notes["translator"] = "degraded (frame-loop scanner): %s" % e
         ctx.log("frame-loop scanner degraded:", e)
         ce["frame_loops_scanned_from_source"] = "degraded: %s" % e
+    # 1b. cython per-frame loops, hand-written omp loops, OpenMP clauses (fail closed: file not refreshed)
+    try:
+        pyx, omp = scan_pyx(), scan_omp_cpp()
+        ctx.write_gen("Gen/SchedPyx.v", gen_pyx_text(pyx, omp))
+        ce["cython_frame_loops_scanned"] = {n: len(T.ops) for n, _r, _f, _k, T in pyx[0]}
+        ce["omp_frame_loops_scanned"] = {n: len(T.ops) for n, _r, _f, _k, T in omp[0]}
+        ce["prange_clauses_of_generated_cpp"] = {w: {"lastprivate": a, "reduction": r, "schedule": sc} for w, a, r, sc in pyx[1]}
+        ce["omp_clauses_of_handwritten_cpp"] = {w: {"private": a, "reduction": r, "schedule": sc} for w, a, r, sc in omp[1]}
+        ce["prange_problems"] = {k: v for k, v in list(pyx[2].items()) + [("omp_" + k, v) for k, v in omp[2].items()] if v}
+    except Exception as e:
+        ctx.notes["translator"] = (ctx.notes.get("translator", "") + " degraded (cython/omp scanner): %s" % e).strip()
+        ctx.log("cython/omp scanner degraded:", e)
+        ce["cython_frame_loops_scanned"] = "degraded: %s" % e
     # 2. the SASA loop skeleton and the omp shared-variable lint
     v = static_view()
     ctx.write_gen("Gen/SchedSasa.v", gen_text(v["ops"], v["shared"], "ops: %s" % " ".join(v["tags"])))
@@ -364,7 +572,20 @@ def diagnose_kernels(ctx):
         statics = static_state()
     except Exception as e:
         statics = "scanner: %s" % e
-    return {"undisciplined": bad, "percall_static_written": stat, "kernel_files_static_state": statics}
+    res = {"undisciplined": bad, "percall_static_written": stat, "kernel_files_static_state": statics}
+    # the cython / omp terms and clause checks of Gen/SchedPyx.v
+    try:
+        pyx, omp = scan_pyx(), scan_omp_cpp()
+        terms = pyx[0] + omp[0]
+        defs = "\n".join("Definition %s : fprog :=\n  %s." % (n, T.coq()) for n, _r, _f, _k, T in terms)
+        expr = "[%s]" % "; ".join('("%s"%%string, %s %s)' % (n, "par_ok" if k in ("prange", "omp") else "fdisc", n)
+                                  for n, _r, _f, k, T in terms)
+        rc, out = ctx.coq_eval(["MD.Sched.FrameLoop"], expr, prelude="Open Scope Z_scope.\n" + defs)
+        res["cython_or_omp_loops_undisciplined"] = re.findall(r'\("(\w+)"%string,\s*false\)', out)
+        res["prange_problems"] = {k: v for k, v in list(pyx[2].items()) + [("omp_" + k, v) for k, v in omp[2].items()] if v}
+    except Exception as e:
+        res["cython_or_omp_loops_undisciplined"] = "scanner: %s" % e
+    return res
 
 
 # ------------------------------------------------------------------------------------------ environments / inputs
